@@ -87,6 +87,11 @@ def build_corpus(tier, rng):
                 if dm_kind == 4 and rp is None and any(d < 0 for d in ds):
                     continue        # FromRepr on the generated type uses usize when there is no repr
                 items.append(("systematic", it))
+    # non-integer repr hints are copied too: #[repr(C)] (layout observable through size_of / align_of)
+    for nv in (1, 3, 5):
+        items.append(("repr-c", Item("E", [Variant(names[i], "unit") for i in range(nv)], repr="C")))
+    items.append(("repr-c", Item("E", [Variant("A", "tuple", [Field("u8")]), Variant("B", "unit"), Variant("C", "named", [Field("i32", "a")])], repr="C")))
+    items.append(("repr-c", Item("E", [Variant("A", "unit"), Variant("B", "unit", discr=7)], repr="C", dmetas=[DM("name", "Tag")])))
     items.append(("lifetime", Item("E", [Variant("B", "tuple", [Field("&'l0 str")]), Variant("O", "named", [Field("G0", "x")]), Variant("N", "unit")],
                                    lifetimes=1, tparams=1, where_clause=True)))
     for fam, it in items:
@@ -153,12 +158,18 @@ def render_def(k, it, meta, cfg):
     inner.append("pub fn didx(d: %s) -> usize { match d { %s } }" % (
         dname, " ".join("%s::%s => %d," % (dname, v.ident, i) for i, v in enumerate(it.variants)) or "_ => unreachable!(),"))
     inner.append("pub fn dval(d: %s) -> i128 { d as i128 }" % dname)
+    if it.variants:
+        refvs = ", ".join("%s%s" % (v.ident, (" = %s" % (v.discr_expr or v.discr)) if v.discr is not None else "") for v in it.variants)
+        inner.append("%s#[derive(Clone, Copy)] pub enum HarnessRef { %s }" % (("#[repr(%s)] " % it.repr) if it.repr else "", refvs))
+        inner.append("pub fn layout() -> String { format!(\"{}/{},{}/{}\", std::mem::size_of::<%s>(), std::mem::size_of::<HarnessRef>(), std::mem::align_of::<%s>(), std::mem::align_of::<HarnessRef>()) }" % (dname, dname))
+    else:
+        inner.append("pub fn layout() -> String { \"0/0,1/1\".to_string() }")
     inner.append("pub fn dall() -> Vec<%s> { vec![%s] }" % (dname, ", ".join("%s::%s" % (dname, v.ident) for v in it.variants)))
     inner.append(RR.vals_fn(it, meta["vals"]))
     fieldless = all(v.kind == "unit" for v in it.variants) and it.variants
     if fieldless and not it.tparams and not it.lifetimes:
         inner.append("pub fn eval(e: &%s) -> String { (e.clone() as i128).to_string() }" % ty)
-    elif it.repr and it.variants:
+    elif it.repr in ("u8", "u16", "u32", "u64", "usize", "i8", "i16", "i32", "i64", "isize") and it.variants:
         inner.append("pub fn eval(e: &%s) -> String { (unsafe { *(e as *const %s as *const %s) } as i128).to_string() }" % (ty, ty, it.repr))
     else:
         inner.append('pub fn eval(e: &%s) -> String { "-".to_string() }' % ty)
@@ -173,7 +184,7 @@ def render_def(k, it, meta, cfg):
     conv.append('let c = didx(%s::from(e));' % dname)
     conv.append('format!("ref=v{}|disc=v{}|val=v{}|as={}|tag={}", a, b, c, dv, ev)')
     inner.append("pub fn conv(j: usize) -> String { %s }" % " ".join(conv))
-    item_obs = ['format!("name=%s|dvals=[{}]", dall().iter().map(|d| dval(*d).to_string()).collect::<Vec<_>>().join(";"))' % dname]
+    item_obs = ['format!("name=%s|dvals=[{}]|layout={}", dall().iter().map(|d| dval(*d).to_string()).collect::<Vec<_>>().join(";"), layout())' % dname]
     inner.append("pub fn itemobs() -> String { %s }" % item_obs[0])
     ond = {}
     if "strum::EnumIter" in want:
@@ -221,7 +232,11 @@ def compare(corpus, k, kind, args, note, iobs, mobs, cfg):
         ip = dict(p.split("=", 1) for p in iobs.split("|"))
         ok = ip["name"] == mp["name"] and ip["dvals"] == mp["discr"]
         ok = ok and mp["variants"] == ",".join(v.ident for v in it.variants)
-        ok = ok and mp["repr"] == (it.repr or "none")
+        INT = ("u8", "u16", "u32", "u64", "usize", "i8", "i16", "i32", "i64", "isize")
+        ok = ok and mp["repr"] == ((it.repr if it.repr in INT else "other") if it.repr else "none")
+        # same #[repr]: the generated enum is laid out like a hand-written field-less enum with that repr
+        (sa, sb), (aa, ab) = [x.split("/") for x in ip["layout"].split(",")]
+        ok = ok and sa == sb and aa == ab
         return ok, True, "generated item: impl %s / model %s" % (iobs, mobs)
     if kind == "disc":
         i = int(args[1])
